@@ -10,8 +10,8 @@
        normalize_index (Model/Slicing.v: the GENERATED replace_none / posify_index / clip_slice /
        check_index of Gen/G_slicing.v, per entry), then the recursive _setitem: the first slice
        entry is expanded over range(start, stop, step), where start/stop come from the
-       GENERATED bounds block (Gen/G_dok.v: g_dok_bounds_pos / g_dok_bounds_neg — the latter
-       contains `ind.start or self.shape[i] - 1`, finding D4), the value is narrowed by
+       GENERATED bounds block (Gen/G_dok.v: g_dok_bounds_pos / g_dok_bounds_neg), the value is
+       narrowed by
        `value if value_missing_dims > 0 else (value[0] if value.shape[0] == 1 else value[v_idx])`
        and the leaf stores the element or, when it equals the fill value, deletes the key. *)
 From Coq Require Import ZArith List Bool.
@@ -185,8 +185,13 @@ Section DOK.
   (* a boolean mask never reaches a store: a list of bools is taken for a list of integers
      and rejected by _fancy_setitem's dtype test, an ndarray of bools is turned into an integer
      array by normalize_index and rejected by _setitem — IndexError either way *)
+  (* the empty tuple (): `isinstance(key, tuple) and all(isinstance(k, Iterable) for k in key)` is
+     vacuously true, so it is taken for a tuple of index sequences of the wrong arity
+     (NotImplementedError); on a 1-d array it is first wrapped into ((),) and then rejected by
+     _fancy_setitem's dtype test (IndexError) *)
   Definition setitem (sh : shape) (fill : V) (st : state) (k : key) (v : arr V) : res state :=
     match k with
+    | KBasic [] => match sh with [_] => Raise IndexError | _ => Raise NotImplementedError end
     | KBasic es => setitem_basic sh fill st es v
     | KFancy ls => fancy_setitem sh fill st ls v
     | KMask _ => Raise IndexError
@@ -201,13 +206,10 @@ Section DOK.
     fold_left (step sh fill) ops [].
 
   (* ------------------------------------------------------------ reads *)
-  (* DOK.__getitem__ normalises the key, converts to COO and indexes it; COO.__getitem__
-     normalises the (already normalised) key AGAIN, and then selects, per axis, the integer
-     or range(start, stop, step) of the normalised entry (that selection is the subject of
-     C02; here it is taken at its meaning). *)
-  Definition renorm (ents : list (pyv * Z)) : res (list (pyv * Z)) :=
-    norm_entries (map fst ents) (map snd ents).
-
+  (* DOK.__getitem__ converts to COO and indexes it with the key as given; COO.__getitem__
+     normalises the key (normalize_index) and then selects, per axis, the integer or
+     range(start, stop, step) of the normalised entry (that selection is the subject of C02;
+     here it is taken at its meaning). *)
   Fixpoint axes_of (ents : list (pyv * Z)) : res (list axis) :=
     match ents with
     | [] => Ok []
@@ -221,8 +223,7 @@ Section DOK.
   Definition getitem_basic (sh : shape) (fill : V) (st : state) (es : list kentry)
     : res (list Z * list V) :=
     ents <- normalize_key es sh ;;
-    ents2 <- renorm ents ;;
-    axs <- axes_of ents2 ;;
+    axs <- axes_of ents ;;
     Ok (selshape axs, map (abs fill st) (gather_idx axs)).
 
   (* _fancy_getitem: new_data[i] = data[k] for the rows k present in the dict (again no
@@ -239,6 +240,7 @@ Section DOK.
 
   Definition getitem (sh : shape) (fill : V) (st : state) (k : key) : res (list Z * list V) :=
     match k with
+    | KBasic [] => Raise NotImplementedError     (* () is a tuple of zero index sequences *)
     | KBasic es => getitem_basic sh fill st es
     | KFancy ls => fancy_getitem sh fill st ls
     | KMask m =>
@@ -262,41 +264,9 @@ Section DOK.
     mkCOO sh (map fst st) (map snd st) fill.
 
   (* ------------------------------------------------------------ domain clauses *)
-  Definition norm_triple (r : res pyv) : option (Z * Z * Z) :=
-    match r with Ok (VSlice (VInt s) (VInt e) (VInt st)) => Some (s, e, st) | _ => None end.
-
-  (* D4: a negative step whose NORMALISED start is 0 on an axis longer than 1
-     (`ind.start or self.shape[i] - 1` then restarts at the last element) *)
-  Definition d4_clause (a b c : option Z) (dim : Z) : bool :=
-    match norm_triple (normalize_slice (VSlice (oz a) (oz b) (oz c)) dim) with
-    | Some (s, _, st) => (0 <? st) || negb (s =? 0) || (dim =? 1)
-    | None => true
-    end.
-
-  (* reads: normalising twice is not the identity when the first normalisation of a
-     negative-step slice ends with start = -1 (an empty selection) on a non-empty axis *)
-  Definition renorm_clause (a b c : option Z) (dim : Z) : bool :=
-    match norm_triple (normalize_slice (VSlice (oz a) (oz b) (oz c)) dim) with
-    | Some (s, _, st) => (0 <? st) || (0 <=? s) || (dim =? 0)
-    | None => true
-    end.
-
-  Definition entry_setdom (e : kentry) (dim : Z) : bool :=
-    match e with
-    | KInt _ => true
-    | KSlice a b c => d1_clause b c && d4_clause a b c dim
-    end.
-  Definition entry_getdom (e : kentry) (dim : Z) : bool :=
-    match e with
-    | KInt _ => true
-    | KSlice a b c => d1_clause b c && renorm_clause a b c dim
-    end.
-
-  Fixpoint entries_dom (f : kentry -> Z -> bool) (es : list kentry) (sh : shape) : bool :=
-    match es, sh with
-    | e :: es', d :: sh' => f e d && entries_dom f es' sh'
-    | _, _ => true
-    end.
+  (* the key is not the empty tuple () *)
+  Definition nonempty_key (es : list kentry) : bool :=
+    match es with [] => false | _ => true end.
 
   (* the value has no more axes than the key has slices (NumPy also accepts surplus leading
      axes of extent 1; _setitem raises ValueError) *)
@@ -329,14 +299,14 @@ Section DOK.
   Definition op_dom (sh : shape) (op : key * arr V) : bool :=
     op_valid sh op &&
     match fst op with
-    | KBasic es => entries_dom entry_setdom (np_pad es sh) sh && value_ndim_clause sh es (snd op)
+    | KBasic es => nonempty_key es && value_ndim_clause sh es (snd op)
     | KFancy ls => fancy_in_range ls sh && fancy_nonempty ls && fancy_value_clause ls (snd op)
     | KMask _ => false
     end.
 
   Definition read_dom (sh : shape) (k : key) : bool :=
     match k with
-    | KBasic es => entries_dom entry_getdom (np_pad es sh) sh
+    | KBasic es => nonempty_key es
     | KFancy ls => fancy_in_range ls sh
     | KMask _ => false
     end.
